@@ -201,7 +201,8 @@ class C09(core.Prop):
     pid = 'C09'
     lean_modules = ['TddaVerif.Props.C09']
     theorems = ['TddaVerif.Props.C09.' + t for t in ['getDate_strDatetime', 'load_dump', 'dump_load_dump', 'same_constraints',
-        'unknown_ignored', 'hash_key_silent', 'stripLines_no_trailing_ws', 'stripLines_id', 'stripLines_lines']]
+        'unknown_ignored', 'hash_key_silent', 'stripLines_no_trailing_ws', 'stripLines_id', 'stripLines_lines',
+        'metadata_keys_nodup', 'meta_roundtrip', 'falsy_value_kept', 'meta_unknown_or_null_ignored', 'tie_meta_guards']]
     quick_n = 900
     thorough_n = 20000
     rule = ('cases: constraint sets in the documented dictionary format: 1..4 fields with unicode / quote / backslash / '
@@ -212,6 +213,7 @@ class C09(core.Prop):
             'added, and is verified against a generated frame before and after. non-trivial = >= 2 constraints; '
             'distinct by content')
     trusted_base = [
+        'the translator harness/translate.py (METADATA_KEYS and the guards of the two metadata loops of base.py) that regenerates Generated/Meta.lean',
         'date bounds carrying a UTC offset are modelled for whole-minute offsets (the RTZ layout of get_date, +HH:MM / -HH:MM as '
         'str() writes them); an offset with seconds (local mean time zones) is not matched by RTZ and stays text in code and model',
         'the json library (json.dumps / json.loads) is not modelled: its contract loads(dumps(x)) = x and the layout of '
@@ -220,6 +222,10 @@ class C09(core.Prop):
 
     def revive(self, case):
         return cx.revive(case)
+
+    def translate(self):
+        import translate
+        return translate.regenerate(['Meta'])
 
     def corpus(self):
         return [
@@ -256,7 +262,23 @@ class C09(core.Prop):
         ops.append({'op': 'c09.to_dict', 'fields': self._objects_json(case)})
         for s_ in self._date_strings(case):
             ops.append({'op': 'c09.get_date', 's': s_})
+        ops.append({'op': 'c09.meta', 'md': [[k, None if v is None else json.dumps(v)] for k, v in self._md(case)]})
         return ops
+
+    def _md(self, case):
+        """the creation metadata of the case as (key, value) pairs, with some more entries derived from the case: an
+        unknown key, null values, values that are false to Python's `if`"""
+        md = list((case['set'].get('creation_metadata') or {}).items())
+        n = len(json.dumps(case['set'], sort_keys=True, default=str))
+        extra = [('rdbms', None), ('no_such_key', 'x'), ('n_selected', 0), ('source', ''), ('as_at', False), ('user', 'u'),
+                 ('n_records', 0.0), ('tddafile', None)]
+        have = {k for k, _ in md}
+        for i_ in range(n % 4):
+            k_, v_ = extra[(n + 3 * i_) % len(extra)]
+            if k_ not in have:
+                md.append((k_, v_))
+                have.add(k_)
+        return md
 
     def _date_strings(self, case):
         import random
@@ -356,6 +378,13 @@ class C09(core.Prop):
                 body = mz.group(1) if mz else s_
                 matched = any(_re.match(rx, body) for rx in ((B.RDT, B.RDTM) if mz else (B.RD, B.RDT, B.RDTM)))
                 out.append('invalid' if matched else 'not-date')
+        try:
+            csm = DatasetConstraints()
+            with quiet(), contextlib.redirect_stderr(io.StringIO()):
+                csm.initialize_from_dict({'fields': {}, 'creation_metadata': dict(self._md(case))})
+            out.append([[k, json.dumps(v)] for k, v in csm.get_metadata().items()])
+        except Exception as e:   # noqa
+            out.append({'exc': type(e).__name__})
         return out
 
     def canon_model(self, case, outs):
